@@ -148,7 +148,7 @@ func replay(casesPath, resultPath string) error {
 	defer f.Close()
 	sc := bufio.NewScanner(f)
 	sc.Buffer(make([]byte, 1<<20), 1<<28)
-	var mism []mismatch
+	mism := []mismatch{}
 	cases, calls, misses, unusedEntries := 0, 0, 0, 0
 	line := 0
 	for sc.Scan() {
